@@ -31,13 +31,15 @@ pub struct Outcome {
   pub nontrivial: bool,
   pub hash: u64,
   pub labels: Vec<&'static str>,
+  /// free-form counters (e.g. panic messages), histogrammed in evidence
+  pub notes: Vec<String>,
   /// decoded case (only filled when asked for, or on violation)
   pub desc: Option<J>,
 }
 
 impl Outcome {
   pub fn discard() -> Outcome {
-    Outcome { verdict: Verdict::Discard, nontrivial: false, hash: 0, labels: vec!["discard"], desc: None }
+    Outcome { verdict: Verdict::Discard, nontrivial: false, hash: 0, labels: vec!["discard"], notes: vec![], desc: None }
   }
 }
 
@@ -79,7 +81,10 @@ pub struct Prop {
 
 // ------------------------------------------------------------ panics -------
 
-thread_local! { static LAST_PANIC: RefCell<Option<String>> = RefCell::new(None); }
+thread_local! {
+  static LAST_PANIC: RefCell<Option<String>> = RefCell::new(None);
+  static PANICS: std::cell::Cell<u32> = std::cell::Cell::new(0);
+}
 
 pub fn install_panic_hook() {
   let verbose = std::env::var("RXV_VERBOSE").is_ok();
@@ -93,19 +98,51 @@ pub fn install_panic_hook() {
     };
     let loc = info.location().map(|l| format!("{}:{}", l.file(), l.line())).unwrap_or_default();
     if verbose {
-      eprintln!("panic: {msg} at {loc}");
+      eprintln!("panic: {msg} at {loc}\n{}", std::backtrace::Backtrace::force_capture());
     }
-    LAST_PANIC.with(|p| *p.borrow_mut() = Some(format!("{msg} @ {loc}")));
+    PANICS.with(|c| c.set(c.get() + 1));
+    LAST_PANIC.with(|p| {
+      let mut p = p.borrow_mut();
+      if p.is_none() {
+        *p = Some(format!("{msg} @ {loc}")); // keep the first panic of the case
+      }
+    });
   }));
 }
 
-/// run `f`, turning a panic into Err(message)
+/// run `f`, turning a panic into Err(message of the first panic)
 pub fn guarded<T>(f: impl FnOnce() -> T) -> Result<T, String> {
   LAST_PANIC.with(|p| *p.borrow_mut() = None);
+  PANICS.with(|c| c.set(0));
   match catch_unwind(AssertUnwindSafe(f)) {
     Ok(v) => Ok(v),
     Err(_) => Err(LAST_PANIC.with(|p| p.borrow_mut().take()).unwrap_or_else(|| "<panic>".into())),
   }
+}
+
+/// like `guarded`, but a panic that the library swallowed (scheduled tasks run
+/// under catch_unwind) also counts
+pub fn guarded_strict<T>(f: impl FnOnce() -> T) -> Result<T, String> {
+  let r = guarded(f);
+  match r {
+    Ok(v) => {
+      if PANICS.with(|c| c.get()) > 0 {
+        Err(format!("{} (swallowed inside a scheduled task)", LAST_PANIC.with(|p| p.borrow_mut().take()).unwrap_or_default()))
+      } else {
+        Ok(v)
+      }
+    }
+    e => e,
+  }
+}
+
+/// message with addresses / numbers removed, so that panics can be histogrammed
+pub fn panic_class(m: &str) -> String {
+  let mut s: String = m.chars().map(|c| if c.is_ascii_digit() { '#' } else { c }).collect();
+  while s.contains("##") {
+    s = s.replace("##", "#");
+  }
+  s.chars().take(110).collect()
 }
 
 // ------------------------------------------------------------ stats --------
@@ -116,6 +153,7 @@ pub struct Stats {
   pub discards: u64,
   pub nontrivial: HashSet<u64>,
   pub labels: BTreeMap<&'static str, u64>,
+  pub notes: BTreeMap<String, u64>,
   pub samples: Vec<J>,
   pub excluded_known: u64,
 }
@@ -126,6 +164,9 @@ impl Stats {
     self.nontrivial.extend(o.nontrivial);
     for (k, v) in o.labels {
       *self.labels.entry(k).or_insert(0) += v;
+    }
+    for (k, v) in o.notes {
+      *self.notes.entry(k).or_insert(0) += v;
     }
     for s in o.samples {
       if self.samples.len() < 6 {
@@ -144,6 +185,9 @@ impl Stats {
     }
     for l in &o.labels {
       *self.labels.entry(l).or_insert(0) += 1;
+    }
+    for n in &o.notes {
+      *self.notes.entry(n.clone()).or_insert(0) += 1;
     }
   }
 }
@@ -185,6 +229,10 @@ fn start_watchdog(id: &'static str) {
 
 fn run_one(run: CaseFn, c: &mut dyn Choices, ctx: &Ctx) -> Outcome {
   beat();
+  // single-thread engines: a re-lock of a held MutArc is a self-deadlock verdict, not a hang
+  if crate::hooks::mode() == crate::hooks::ThreadMode::Unmanaged {
+    crate::hooks::set_mode(crate::hooks::ThreadMode::Solo);
+  }
   match guarded(|| run(c, ctx)) {
     Ok(o) => o,
     Err(msg) => Outcome {
@@ -192,6 +240,7 @@ fn run_one(run: CaseFn, c: &mut dyn Choices, ctx: &Ctx) -> Outcome {
       nontrivial: false,
       hash: 0,
       labels: vec!["harness-panic"],
+      notes: vec![],
       desc: Some(json!({"picks": c.record()})),
     },
   }
@@ -485,6 +534,7 @@ fn write_evidence(prop: &Prop, tier: Tier, seed: u64, st: &Stats, exhaustive: Op
     "discarded": st.discards,
     "labels": st.labels.iter().map(|(k, v)| (k.to_string(), json!(v))).collect::<serde_json::Map<_, _>>(),
     "excluded_known": st.excluded_known,
+    "notes": st.notes.iter().map(|(k, v)| (k.clone(), json!(v))).collect::<serde_json::Map<_, _>>(),
     "parts": parts,
   });
   if let Some(e) = exhaustive {
@@ -627,6 +677,9 @@ pub fn check(prop: &Prop, tier: Tier, seed: u64) -> i32 {
   if std::env::var("RXV_LABELS").is_ok() {
     for (k, v) in &total.labels {
       println!("  label {k}: {v}");
+    }
+    for (k, v) in &total.notes {
+      println!("  note {k}: {v}");
     }
   }
   if violations.is_empty() {
